@@ -619,6 +619,10 @@ func (s *Scenario) expect(imageClass string, nlines int, fired int) expectation 
 		e.Why = "fault plan active: only G1/G2"
 		return e
 	}
+	if s.Stdout == "deadpipe" {
+		e.Why = "stdout is a pipe without reader: the process may be killed by SIGPIPE, which is outside the contract: only G1/G2"
+		return e
+	}
 	if (s.SrcKind == "same_as_dst" || s.DstKind == "hardlink_to_src" || s.DstKind == "symlink_to_src") && (srcFault || dstFault) {
 		e.Why = "fault on a path that is both source and destination: only G1/G2"
 		return e
@@ -911,10 +915,10 @@ func (c *c19Ctx) execute(s *Scenario, keepDir bool) (out *ScenarioOutcome, viol 
 				}
 			}()
 		}
-		pr := runProcStdin(cliWatchdog, W, baseEnv(append([]string{"GOMAXPROCS=1", "HOME=/nonexistent"}, s.Env...)...), wp.stdinData, cmd...)
+		pr := runProcOpts(cliWatchdog, W, baseEnv(append([]string{"GOMAXPROCS=1", "HOME=/nonexistent"}, s.Env...)...), wp.stdinData, s.Stdout == "deadpipe", cmd...)
 		if pr.TimedOut && !wp.isFifo {
 			// a loaded machine, not necessarily a hang: one more try with four times the budget
-			pr = runProcStdin(4*cliWatchdog, W, baseEnv(append([]string{"GOMAXPROCS=1", "HOME=/nonexistent"}, s.Env...)...), wp.stdinData, cmd...)
+			pr = runProcOpts(4*cliWatchdog, W, baseEnv(append([]string{"GOMAXPROCS=1", "HOME=/nonexistent"}, s.Env...)...), wp.stdinData, s.Stdout == "deadpipe", cmd...)
 		}
 		if feederDone != nil {
 			// release a feeder that nobody read from (gosk never opened the source)
